@@ -70,6 +70,9 @@ func (e *Engine) builtin(st *State, fr *Frame, b *ssa.Builtin, cc *ssa.CallCommo
 		m := args[0].(*smt.Term)
 		kt := under(cc.Args[0].Type()).(*types.Map)
 		key := e.asTerm(st, args[1], kt.Key())
+		if checks {
+			e.recordCall(st, "map.delete", []Value{m, args[1]}, nil)
+		}
 		hk := "map:has:" + typeName(cc.Args[0].Type())
 		ks := key.Sort
 		a := e.heapArr(st, hk, smt.Arr(ks, smt.Bool))
@@ -252,6 +255,9 @@ func (e *Engine) lookup(st *State, fr *Frame, x *ssa.Lookup) Value {
 	} else {
 		e.fail("map with value type %s", mt.Elem())
 	}
+	if st.PureDepth == 0 && !fr.Pure {
+		e.recordCall(st, "map.lookup", []Value{m, e.val(fr, x.Index)}, []Value{val, has})
+	}
 	if x.CommaOk {
 		return &TupleV{V: []Value{val, has}}
 	}
@@ -265,6 +271,9 @@ func (e *Engine) mapUpdate(st *State, fr *Frame, x *ssa.MapUpdate) {
 	key := e.asTerm(st, e.val(fr, x.Key), mt.Key())
 	if st.PureDepth == 0 && !fr.Pure {
 		e.oblige(st, fr, "safety:nil-map-write", "", c.Not(c.Eq(m, e.i64(0))), e.pos(x.Pos()))
+	}
+	if st.PureDepth == 0 && !fr.Pure {
+		e.recordCall(st, "map.update", []Value{m, e.val(fr, x.Key), e.val(fr, x.Value)}, nil)
 	}
 	ha := e.heapArr(st, hk, smt.Arr(key.Sort, smt.Bool))
 	st.Heap[hk] = c.Store(ha, m, c.Store(c.Select(ha, m), key, c.True()))
@@ -526,6 +535,7 @@ func (e *Engine) contractFootprint(fc *FnContract, fp *footprint) {
 
 func (e *Engine) havocLoop(st *State, fr *Frame, li *loopInfo, lc *LoopContract) {
 	c := e.C
+	e.havocCalls(st)
 	fp := newFootprint()
 	e.scanFootprint(fr.Fn, li.Blocks, fp, map[*ssa.Function]bool{fr.Fn: true})
 	if fp.all {
